@@ -30,8 +30,8 @@ func init() {
 }
 
 type entryModel struct {
-	entry, rpcEntry                                *types.Named
-	fDir, fParent, fName, fRPC, fIn, fOut, fAugs   *types.Var
+	entry, rpcEntry                               *types.Named
+	fDir, fParent, fName, fRPC, fIn, fOut, fAugs  *types.Var
 	fErrors, fDeviate, fDeviations, fNode, fExtra *types.Var
 }
 
@@ -498,7 +498,7 @@ func ruleTreeFresh(c *Ctx) []Obligation {
 			if escape == "" {
 				obs = append(obs, ok(R, con, pos, "all uses are deep-copy receivers or arguments of functions that do not retain the entry"))
 			} else {
-				if why, okj := freshJustified[c.FnName(fn)+"|"+p.RefWhy]; okj {
+				if why, okj := jget("freshJustified", freshJustified, c.FnName(fn)+"|"+p.RefWhy); okj {
 					obs = append(obs, just(R, con, pos, why))
 				} else {
 					obs = append(obs, bad(R, con, pos, "the cached entry "+escape+": every user of the referenced node would share one entry object"))
